@@ -192,7 +192,7 @@ def ob_eia_symbolic(L):
 
 
 def jobs(tier, seed):
-    eea = [0, 1, 31, 32, 33, 64, 255, 256, 257, 1023, 1024, 1025, 4096] if tier == "quick" else list(range(0, 131)) + [255, 256, 257, 511, 512, 513, 1023, 1024, 1025, 4095, 4096, 4097, 65535, 65536, 65537]
+    eea = list(range(0, 100)) + [255, 256, 257, 1000, 1023, 1024, 1025, 4096] if tier == "quick" else list(range(0, 300)) + [511, 512, 513, 1000, 1023, 1024, 1025, 4088, 4095, 4096, 4097, 65528, 65535, 65536, 65537]
     eia = [0, 1, 32, 33, 255, 256, 257, 1024] if tier == "quick" else list(range(0, 70)) + [255, 256, 257, 511, 512, 513, 1023, 1024, 1025, 4096, 8191]
-    sym = [0, 1, 31, 32, 33, 64, 65, 128, 255, 256, 257] if tier == "quick" else list(range(0, 131)) + [255, 256, 257, 511, 512, 513, 1024]
+    sym = [0, 1, 7, 8, 9, 16, 24, 31, 32, 33, 40, 48, 56, 64, 65, 72, 128, 255, 256, 257] if tier == "quick" else list(range(0, 131)) + [255, 256, 257, 511, 512, 513, 1024]
     return [lambda: ob_iv("EEA"), lambda: ob_iv("EIA")] + [(lambda L=L: ob_eia_symbolic(L)) for L in sym] + [(lambda L=L: ob_eea(L)) for L in eea] + [(lambda L=L: ob_eia(L, seed)) for L in eia]
